@@ -135,11 +135,21 @@ Record views := mkViews {
   w_succ : adj; w_pred : adj;
   w_succv : list (N * list tvert); w_predv : list (N * list tvert);
   w_out : list (N * list tedge); w_in : list (N * list tedge);
-  w_nopred : list tvert; w_nosucc : list tvert }.
+  w_nopred : list tvert; w_nosucc : list tvert;
+  (* for every id of the pool that is NOT a vertex: edges_in, edges_out, successor_indices, predecessor_indices *)
+  w_probe : list (N * (res (list tedge) * res (list tedge) * res (list N) * res (list N)));
+  (* graph == graph rebuilt from vertices() and edges() (derived PartialEq over the four maps) *)
+  w_canon : bool }.
 
 Definition tv_eqb : tvert -> tvert -> bool := pair_eqb N.eqb N.eqb.
 Definition te_eqb : tedge -> tedge -> bool := pair_eqb (pair_eqb N.eqb N.eqb) N.eqb.
-Definition views_eqb (a b : views) : bool :=
+Definition probe_eqb (a b : N * (res (list tedge) * res (list tedge) * res (list N) * res (list N))) : bool :=
+  (fst a =? fst b)
+  && res_eqb (list_eqb te_eqb) (fst (fst (fst (snd a)))) (fst (fst (fst (snd b))))
+  && res_eqb (list_eqb te_eqb) (snd (fst (fst (snd a)))) (snd (fst (fst (snd b))))
+  && res_eqb nl_eqb (snd (fst (snd a))) (snd (fst (snd b)))
+  && res_eqb nl_eqb (snd (snd a)) (snd (snd b)).
+Definition views_core_eqb (a b : views) : bool :=
   (w_num a =? w_num b)
   && list_eqb tv_eqb (w_vertices a) (w_vertices b) && list_eqb te_eqb (w_edges a) (w_edges b)
   && adj_eqb (w_succ a) (w_succ b) && adj_eqb (w_pred a) (w_pred b)
@@ -148,8 +158,14 @@ Definition views_eqb (a b : views) : bool :=
   && list_eqb (pair_eqb N.eqb (list_eqb te_eqb)) (w_out a) (w_out b)
   && list_eqb (pair_eqb N.eqb (list_eqb te_eqb)) (w_in a) (w_in b)
   && list_eqb tv_eqb (w_nopred a) (w_nopred b) && list_eqb tv_eqb (w_nosucc a) (w_nosucc b).
+Definition views_eqb (a b : views) : bool :=
+  views_core_eqb a b && list_eqb probe_eqb (w_probe a) (w_probe b) && Bool.eqb (w_canon a) (w_canon b).
 
-Definition model_views (g : tgraph) : res views :=
+Definition rebuild (g : tgraph) : res tgraph :=
+  g1 <- fold_left (fun acc v => g' <- acc ;; insert_vertex g' v) (vertices g) (Ok (new : tgraph)) ;;
+  fold_left (fun acc e => g' <- acc ;; insert_edge g' e) (edges g) (Ok g1).
+
+Definition model_views (pool : list N) (g : tgraph) : res views :=
   let ks := map fst (vertices g) in
   s <- per_vertex (successor_indices g) ks ;;
   p <- per_vertex (predecessor_indices g) ks ;;
@@ -159,7 +175,10 @@ Definition model_views (g : tgraph) : res views :=
   ei <- per_vertex (edges_in g) ks ;;
   np <- vertices_without_predecessors g ;;
   nsu <- vertices_without_successors g ;;
-  Ok (mkViews (num_vertices g) (vertices g) (edges g) s p sv pv eo ei np nsu).
+  Ok (mkViews (num_vertices g) (vertices g) (edges g) s p sv pv eo ei np nsu
+              (map (fun k => (k, (edges_in g k, edges_out g k, successor_indices g k, predecessor_indices g k)))
+                   (filter (fun k => negb (has_vertex g k)) pool))
+              (match rebuild g with Ok g2 => graph_eqb tv_eqb te_eqb g g2 | _ => false end)).
 
 Definition apply_op (g : tgraph) (o : op) : res tgraph :=
   match o with
@@ -173,14 +192,14 @@ Definition unit_eqb (a b : unit) : bool := true.
 Definition step_eqb (a b : res unit * res views) : bool :=
   res_eqb unit_eqb (fst a) (fst b) && res_eqb views_eqb (snd a) (snd b).
 
-Fixpoint model_hist (g : tgraph) (ops : list op) : list (res unit * res views) :=
+Fixpoint model_hist (pool : list N) (g : tgraph) (ops : list op) : list (res unit * res views) :=
   match ops with
   | [] => []
   | o :: t =>
     match apply_op g o with
-    | Ok g' => (Ok tt, model_views g') :: model_hist g' t
-    | Err e => (Err e, model_views g) :: model_hist g t
-    | Panic => (Panic, model_views g) :: model_hist g t
+    | Ok g' => (Ok tt, model_views pool g') :: model_hist pool g' t
+    | Err e => (Err e, model_views pool g) :: model_hist pool g t
+    | Panic => (Panic, model_views pool g) :: model_hist pool g t
     end
   end.
 
@@ -220,17 +239,29 @@ Definition spec_views (s : sstate) : views :=
           (map (fun v => (v, flat_map (fun e => look (fst (fst e))) (ins v))) ks)
           (map (fun v => (v, outs v)) ks) (map (fun v => (v, ins v)) ks)
           (filter (fun v => match ins (fst v) with [] => true | _ => false end) vs)
-          (filter (fun v => match outs (fst v) with [] => true | _ => false end) vs).
+          (filter (fun v => match outs (fst v) with [] => true | _ => false end) vs)
+          [] true.
+(* what the specification demands of the probes: exactly the ids of the pool that are not vertices are
+   probed, every probe of such an id fails with an error (no stale adjacency entry answers), and the
+   representation is canonical *)
+Definition is_err {A} (r : res A) : bool := match r with Err _ => true | _ => false end.
+Definition spec_probes (pool : list N) (s : sstate) (w : views) : bool :=
+  nl_eqb (map fst (w_probe w)) (filter (fun k => negb (s_hasv s k)) pool)
+  && forallb (fun p => is_err (fst (fst (fst (snd p)))) && is_err (snd (fst (fst (snd p))))
+                       && is_err (snd (fst (snd p))) && is_err (snd (snd p))) (w_probe w)
+  && w_canon w.
 
-Fixpoint spec_hist (s : sstate) (ops : list op) (obs : list (res unit * res views)) : bool :=
+Fixpoint spec_hist (pool : list N) (s : sstate) (ops : list op) (obs : list (res unit * res views)) : bool :=
   match ops, obs with
   | [], [] => true
   | o :: t, (r, w) :: obs' =>
     match spec_op s o with
     | Some s' => match r with Ok _ => true | _ => false end
-                 && okwith w (views_eqb (spec_views s')) && spec_hist s' t obs'
+                 && okwith w (fun w => views_core_eqb (spec_views s') w && spec_probes pool s' w)
+                 && spec_hist pool s' t obs'
     | None => match r with Err _ => true | _ => false end
-              && okwith w (views_eqb (spec_views s)) && spec_hist s t obs'
+              && okwith w (fun w => views_core_eqb (spec_views s) w && spec_probes pool s w)
+              && spec_hist pool s t obs'
     end
   | _, _ => false
   end.
@@ -238,13 +269,13 @@ Fixpoint spec_hist (s : sstate) (ops : list op) (obs : list (res unit * res view
 (* ------------------------------------------------------------------ cases *)
 Inductive case :=
 | KAlg (vs : list N) (es : list (N * N)) (r : N) (o : alg_obs)
-| KHist (ops : list op) (obs : list (res unit * res views)).
+| KHist (pool : list N) (ops : list op) (obs : list (res unit * res views)).
 
 Arguments KAlg (vs es r)%N_scope o.
-Arguments KHist ops%N_scope obs%N_scope.
+Arguments KHist pool%N_scope ops%N_scope obs%N_scope.
 Arguments mkObs (o_reach o_unreach o_rm_unreach o_pre o_post o_dfs o_idom o_domtree o_doms o_df o_tpreds
                  o_acyclic_g o_is_acyclic o_reducible o_loops o_looptree o_topo)%N_scope.
-Arguments mkViews (w_num w_vertices w_edges w_succ w_pred w_succv w_predv w_out w_in w_nopred w_nosucc)%N_scope.
+Arguments mkViews (w_num w_vertices w_edges w_succ w_pred w_succv w_predv w_out w_in w_nopred w_nosucc w_probe)%N_scope w_canon.
 
 Definition all_true (l : list bool) : bool := forallb (fun b => b) l.
 
@@ -256,7 +287,7 @@ Definition ck_detail (k : case) : list bool * list bool :=
        | _ => [false]
        end,
        if memb r vs then alg_oracle vs es r o else [true])
-  | KHist ops obs =>
-      ([list_eqb step_eqb (model_hist (new : tgraph) ops) obs], [spec_hist ([], []) ops obs])
+  | KHist pool ops obs =>
+      ([list_eqb step_eqb (model_hist pool (new : tgraph) ops) obs], [spec_hist pool ([], []) ops obs])
   end.
 Definition ck (k : case) : bool * bool := (all_true (fst (ck_detail k)), all_true (snd (ck_detail k))).
